@@ -1245,6 +1245,10 @@ class World:
                     it.st_ClassDef(st, env)
                 elif isinstance(st, (ast.Import, ast.ImportFrom)):
                     it.stmt(st, env)
+                    for a in st.names:          # an override may also replace a name the module imports
+                        nm = a.asname or a.name
+                        if (m.name, nm) in self.overrides:
+                            env.set(nm, self.overrides[(m.name, nm)])
                 elif isinstance(st, ast.If):
                     it.stmt(st, env)
                 elif isinstance(st, (ast.Assign, ast.AnnAssign, ast.Expr)):
